@@ -94,4 +94,36 @@ mod tests {
 #[allow(unused_imports, missing_docs, dead_code, unreachable_pub)]
 pub mod verif {
     use super::*;
+
+    /// Public face of the crate-private [`Counter`] (C41).
+    pub struct VCounter(Counter);
+    /// Public face of the crate-private [`CounterGuard`] (C41).
+    pub struct VGuard(CounterGuard);
+
+    impl VCounter {
+        pub fn new() -> VCounter {
+            VCounter(Counter::new())
+        }
+        pub fn guard(&self) -> VGuard {
+            VGuard(self.0.guard())
+        }
+        pub async fn wait_guards(&mut self) {
+            self.0.wait_guards().await
+        }
+        /// `Arc::strong_count` of the counted `Arc` (1 + number of guards still holding it)
+        pub fn strong_count(&self) -> usize {
+            Arc::strong_count(&self.0.counter)
+        }
+    }
+
+    impl VGuard {
+        /// only the first statement of `CounterGuard::drop`
+        pub fn release_only(&mut self) {
+            self.0.counter.take();
+        }
+        /// only the second statement of `CounterGuard::drop`
+        pub fn notify_only(&self) {
+            self.0.notify.notify_waiters();
+        }
+    }
 }
